@@ -771,7 +771,17 @@ func (p *parser) assignCallee(exp ast.Expression, calleeIdent *ast.Identifier) (
 			p.errors = append(p.errors, msg)
 		}
 	case *ast.CallExpression:
-		ss.Callee = calleeIdent
+		// x[i].a.b.M() / f().a.b.M(): the receiver chain a.b hangs off the
+		// indexed or returned value instead of being replaced by it
+		if id, ok := ss.Callee.(*ast.Identifier); ok && id != nil {
+			root := id
+			for root.Callee != nil {
+				root = root.Callee
+			}
+			root.Callee = calleeIdent
+		} else {
+			ss.Callee = calleeIdent
+		}
 		assignedCallee = ss
 	case *ast.Identifier:
 		ss.OriginalCallee.Callee = calleeIdent
